@@ -148,11 +148,28 @@ RULE = ("BFS over every history of claims/releases/closes/listings by up to 3 si
         "non-trivial = at least one nameplate has a ghost holder")
 
 
+class C07Restart(C07):
+    """claims and releases must survive a restart exactly as acknowledged (file-backed, one restart)"""
+
+    def configure(self, tier):
+        X = "X"
+        self.cfg = dict(storage="file")
+        binds = [[(X, "A")], [(X, "B")], [(X, "A"), (X, "B")], [(X, "A"), (X, "B")]]
+        self.driver = Driver(binds, names=("1",), mids=(), kinds=("bind", "claim", "release", "list"),
+                             release_forms=("named", "bare", "unclaimed"), max_restarts=1)
+        self.depth = 5 if tier == "quick" else 7
+
+    def seeds(self):
+        return [[("cbind", 0, "X", "A"), ("cbind", 1, "X", "B"), ("claim", 0, "1"), ("claim", 1, "1")]]
+
+
 def make_spec(tier, name=None):
-    return C07(tier)
+    return C07Restart(tier) if name == "c07-restart" else C07(tier)
 
 
 def run(pid, tier, seed, args):
     from .base_run import run_specs
     spec = make_spec(tier)
-    return run_specs(pid, tier, seed, args, [("c07", spec, spec.depth, 100 if tier == "quick" else 1500)], rule=RULE)
+    spec2 = make_spec(tier, "c07-restart")
+    b = 100 if tier == "quick" else 1500
+    return run_specs(pid, tier, seed, args, [("c07", spec, spec.depth, b), ("c07-restart", spec2, spec2.depth, b / 2)], rule=RULE)
